@@ -63,7 +63,8 @@ Menu(s) ==
   \cup {[k |-> "dealloc", h |-> h] : h \in {h \in DOMAIN s.live : ~s.live[h].det}}
   \cup {[k |-> "detach", h |-> h] : h \in {h \in DOMAIN s.live : ~s.live[h].det}}
   \cup (IF WithLeak THEN {[k |-> "leak", h |-> h] : h \in DOMAIN s.live} ELSE {})
-  \cup (IF s.fl # <<>> THEN {[k |-> "discard"]} ELSE {})
+  \* (also on an empty list: nothing to discard is a result too)
+  \cup (IF Kind # "none" /\ (s.fl # <<>> \/ hist = <<>> \/ hist[Len(hist)].k # "discard") THEN {[k |-> "discard"]} ELSE {})
   \cup {[k |-> "setmin", v |-> v] : v \in MinSegSet \ {s.minseg}}
   \cup {[k |-> "incdisc", v |-> v] : v \in {v \in IncSet : s.disc + v <= 2 * Cap}}
   \cup {op \in {[k |-> "rewind", p |-> q[1], v |-> q[2]] : q \in RewindSet} : RewindOk(s, op)}
@@ -77,7 +78,8 @@ Menu(s) ==
   \cup (IF WithClear /\ (hist = <<>> \/ hist[Len(hist)].k # "clear") THEN {[k |-> "clear"]} ELSE {})
   \cup (IF WithReopen /\ Backend = "file" /\ Len(hist) > 0 /\ hist[Len(hist)].k # "reopen"
         THEN {[k |-> "reopen", variant |-> "map_mut", cap |-> 0, flush |-> FALSE, create |-> FALSE]} ELSE {})
-  \cup {[k |-> "truncate", v |-> v] : v \in {v \in TruncSet : Max(v, s.cursor) # s.cap}}
+  \* (a truncate that leaves the capacity as it is included)
+  \cup {[k |-> "truncate", v |-> v] : v \in TruncSet}
   \cup (IF ~WithClone THEN {}
         ELSE IF Len(s.clones) = 0 THEN {[k |-> "mkclone"]}
         ELSE {[k |-> "cobs"], [k |-> "dropclone"]}
